@@ -1,0 +1,31 @@
+//go:build verif
+
+// Contracts for package didsubject, checked by /verif/govc (comment-only; not part of any normal build).
+
+package didsubject
+
+//@ func NewDIDDocumentManager
+//@   trusted
+//@   benign
+//@   ensures result != nil
+//@ func (*SqlDIDDocumentManager).Latest
+//@   trusted
+//@   benign
+//@   ensures isNilIface(result.1) ==> result.0 != nil
+//@ func (orm.DidDocument).ToDIDDocument
+//@   trusted
+//@   benign
+//@ func resolver.IsDeactivated
+//@   trusted
+//@   pure heap
+//@ func time.Unix
+//@   trusted
+//@   benign
+
+// ---- C18: DIDs managed by this node resolve from the node's own database; a deactivated one only when the caller allows it ----
+//@ func (Resolver).Resolve
+//@   prop C18
+//@   nullable metadata
+//@   ensures [from-local-storage-for-exactly-this-did] isNilIface(result.2) ==> isNilIface(ret(call (*SqlDIDDocumentManager).Latest #1).1) && same(arg(call (*SqlDIDDocumentManager).Latest #1, 1), id)
+//@        && arg(call NewDIDDocumentManager #1, 0) == r.DB
+//@   ensures [deactivated-only-when-allowed] isNilIface(result.2) && ret(call resolver.IsDeactivated #1) == true ==> metadata != nil && metadata.AllowDeactivated && result.1 != nil && result.1.Deactivated
